@@ -141,6 +141,20 @@ PROPS = {
               'on the reduced vector; this rests on the PSLQ matrix invariant in fixed point), non-zero-ness, findpoly/identify.',
         note='Only which checks dominate which returns is decided; the tested data is not interpreted.',
         technique='deductive control-flow contract: guard-dominates-return over all paths of the real pslq body'),
+    'C33': dict(
+        title='cached state never leaks stale or wrong results', level='proof', engines=['cachekeys'], no_units=True,
+        claim='Cache-protocol contracts decided on the real code by data-flow analysis (for all inputs, no execution): '
+              '(K) key determines value for the stores into QuadratureRule.standard_cache / transformed_cache, memoize\'s '
+              'table (precision stored with the value), log_int_cache, log_taylor_cache, atan_taylor_cache, cos_sin_cache: '
+              'every input (parameter or working precision) the stored value depends on is determined by the key, and read '
+              'sites use the same key; (I) every _matrix method that mutates the private data resets the cached LU '
+              'decomposition (the one method documented as unsafe is exempt by name); (P) mpf_bernoulli hands out a freshly '
+              'computed number exactly like a cached one. Not covered: constants/constant_memo (C17), hyp_summators, odefun '
+              'series data, "aborted by an exception at any point" for these tables, equality of results up to rounding.',
+        note='Backward slicing is flow-insensitive up to textual order (over-approximation: a clause that holds may in principle '
+             'be reported as violated, never the reverse, for the dependency relation as modelled); calls are treated as '
+             'functions of their arguments, receiver and working precision.',
+        technique='deductive data-flow contracts (key-determines-value, invalidation, same-protocol) over the real function bodies'),
     'C11': dict(
         title='working precision restored on every exit', level='proof', engines=['precframe'], no_units=True,
         claim='For every function, method, nested function and lambda in mpmath (outside tests and libmp; 1093 on this tree) '
@@ -177,7 +191,6 @@ NOT_APPLICABLE = {
     'C30': 'backward-error statements about floating-point LU/QR are numerical analysis, not VCs',
     'C31': 'eigen/SVD residual bounds are numerical analysis',
     'C32': 'matrix function identities to a tolerance are numerical analysis',
-    'C33': 'not built yet (cache protocol contracts)',
     'C34': 'accuracy of ODE Taylor stepping is analytic',
     'C36': 'approximation accuracy is analytic',
     'C38': 'not built yet (context ownership contracts)',
